@@ -3,7 +3,7 @@ for the 61 indicators."""
 import random, json, collections, os, math
 import vlib
 from vlib import il, fl, streams, h2f, f2h
-from catalog import CAT, NO_IDLE_METHOD, make_inputs, REGIMES
+from catalog import CAT, NO_IDLE_METHOD, make_inputs, REGIMES, gen_ohlcv
 
 
 def ind_line(name, ns, fs, ins):
@@ -117,6 +117,53 @@ def correspondence(res, cases, lines, go, model, what):
 
 def load_findings(prop):
     return {f['component']: f for f in vlib.known_findings(prop)}
+
+
+def strategy_scaling(res, tier, rng, replay):
+    """every strategy's action stream is unchanged when all prices (or all volumes) are multiplied by a power of two"""
+    import c_strategies as cs
+    if replay:
+        rp = json.load(open(replay))
+        if 'strategy_case' not in rp:
+            return 0, 0, 0
+        c = rp['strategy_case']
+        cases = [(c['name'], c['ns'], c['fs'], c['ohlcv'], 'replay')]
+        factors = [tuple(rp['factors'])]
+    else:
+        cases = cs.gen_strat_cases(rng, tier, per=(5 if tier == 'quick' else 30))
+        for wname in cs.WRAPPED:
+            for _ in range(3 if tier == 'quick' else 15):
+                o, regime = gen_ohlcv(rng, rng.randrange(12, 90), rng.choice(['walk', 'wide', 'zigzag', 'down', 'up', 'ties']))
+                cases.append((wname, [], [], o, regime))
+        factors = None
+    lines, meta = [], []
+    for i, c in enumerate(cases):
+        name, ns, fs, o, regime = c
+        fl = factors or [(2.0 ** rng.choice([-20, -14, -10, -3, 1, 7, 15]), 1.0), (1.0, 2.0 ** rng.choice([-20, -8, 1, 12])),
+                         (2.0 ** rng.choice([-17, -12, 4]), 2.0 ** rng.choice([-6, 9]))]
+        lines.append('q%d_b %s' % (i, cs.strat_line(name, ns, fs, o)))
+        for j, (cp, cv) in enumerate(fl):
+            so = {k: [x * (cv if k == 'v' else cp) for x in o[k]] for k in o}
+            lines.append('q%d_%d %s' % (i, j, cs.strat_line(name, ns, fs, so)))
+            meta.append((i, j, cp, cv))
+    go = vlib.run_go(lines)
+    bad = 0
+    cells = set()
+    for (i, j, cp, cv) in meta:
+        b, s = go.get('q%d_b' % i, 'missing'), go.get('q%d_%d' % (i, j), 'missing')
+        name, ns, fs, o, regime = cases[i]
+        cells.add((name, cp != 1.0, cv != 1.0))
+        if not b.startswith('ok') or not s.startswith('ok'):
+            continue
+        if b.split(' | ')[1] != s.split(' | ')[1]:
+            bad += 1
+            if bad <= 10:
+                ba, sa = b.split(' | ')[1].split(','), s.split(' | ')[1].split(',')
+                k = next((t for t, (x, y) in enumerate(zip(ba, sa)) if x != y), min(len(ba), len(sa)))
+                res.violation({'strategy_case': {'name': name, 'ns': ns, 'fs': fs, 'ohlcv': o}, 'factors': [cp, cv],
+                               'first_difference': {'index': k, 'original_action': ba[k] if k < len(ba) else None, 'scaled_action': sa[k] if k < len(sa) else None},
+                               'oracle': 'the action stream of a strategy does not change when every price (volume) is multiplied by a positive constant'})
+    return bad, len(lines), len(cells)
 
 
 # =====================================================================================
@@ -732,18 +779,22 @@ def check_c18(res, tier, replay):
             bad += 1
             res.violation({'case': case_json(base[bi]), 'scaled_case': case_json(c), 'first_difference': problem,
                            'oracle': 'output(scaled inputs) = output * price_factor^dp * volume_factor^dv, Go vs Go, power-of-two factors'})
+    # ---- strategies: recommendations do not depend on the currency unit or the volume unit
+    sbad, sruns, scells = strategy_scaling(res, tier, rng, replay)
+    bad += sbad
     for comp, f in findings.items():
         if known_seen.get(comp):
             res.known_hit.append(known_line(f) + ' [%d cases]' % known_seen[comp])
     res.samples = [{'name': d[3][0], 'ns': d[3][1], 'price_factor': d[1], 'volume_factor': d[2]} for d in derived[:3]]
     res.coverage.update({
-        'evaluations': len(allcases), 'distinct_nontrivial': len(cells),
+        'evaluations': len(allcases) + sruns, 'distinct_nontrivial': len(cells) + scells, 'strategy_runs': sruns,
         'rule': 'indicator x configuration x (price scaled?, volume scaled?) x regime; factors are powers of two so the relation is '
-                'checked bit-for-bit (differences below 1e-12 relative are counted as inexact, larger ones are violations)',
+                'checked bit-for-bit (differences below 1e-12 relative are counted as inexact, larger ones are violations); '
+                'strategy (32 base, 12 compound/decorated incl. Stop-Loss and No-Loss) x configuration x price/volume factor: identical action streams',
         'values_checked': checked, 'exempt_values': exempt, 'inexact_matches': inexact, 'violations_found': bad,
         'traces_validated_against_impl': len(allcases) - mism, 'go_vs_model_mismatches': mism,
         'known_findings_seen': dict(known_seen), 'trusted_base': vlib.TRUSTED,
     })
     res.assumptions = ['IEEE scaling by powers of two is exact absent overflow/underflow (inputs in [1/64, 1e6])',
-                       'strategies (recommendations unchanged) are checked by the C06 check relation when claimed']
+                       'for strategies only the recommendations are compared (thresholds on oscillators are scale-free by construction)']
     return res.finish()
